@@ -52,9 +52,13 @@ def _vhd_spec(draw, tier="quick", layer=0, kind=None):
         holes = draw(st.lists(st.integers(0, nch - 1), max_size=2, unique=True))
         # guest data that itself starts with the footer copy and header of a dynamic VHD (a nested image at guest offset 0)
         nested = size >= 4096 and 0 not in holes and draw(st.integers(0, 3)) == 0
-        return {"kind": "fixed", "size": size, "legacy_footer": legacy, "holes": holes, "layer": layer, "nested_head": nested}
+        return {"kind": "fixed", "size": size, "legacy_footer": legacy, "holes": holes, "layer": layer, "nested_head": nested,
+                "nested_tail": draw(st.integers(0, 3)) == 0}
     bits = draw(st.one_of(st.sampled_from([21, 21, 12, 13, 16, 20]), st.integers(12, 22)))
     bs = 1 << bits
+    if draw(st.integers(0, 5)) == 0:
+        # "every block size": sizes that are not a power of two (whole multiples of eight sectors, so that the sector bitmap has whole bytes)
+        bs = draw(st.sampled_from([20480, 192 << 10, 1536 << 10, 3 << 20, 12288]))
     # large BATs (beyond any table/LRU cache granularity) are cheap: only a sparse set of blocks is described
     nb = draw(st.one_of(st.integers(1, 6), st.integers(1, 40), st.sampled_from([1023, 1024, 1025, 1500, 4096, 4097, 4200, 9000, 65535, 65536, 65537, 70000])))
     tail = draw(st.sampled_from([0, 0, 512, 1024, 4096 + 512, 8192, 8192 + 512, -512]))
@@ -104,6 +108,7 @@ def _vhd_spec(draw, tier="quick", layer=0, kind=None):
     return {
         "kind": "dynamic", "size": size, "legacy_footer": legacy, "block_size": bs, "dyn_offset": dyn_off, "table_offset": tab_off,
         "alloc": [[b, base_sec + s * (span + pad)] for b, s in zip(alloc_l, slots)], "layer": layer,
+        "nested_tail": draw(st.integers(0, 4)) == 0,
     }
 
 
